@@ -30,6 +30,7 @@ type CheckConfig struct {
 	Bounds         map[string]string `json:"bounds"`
 	Assumptions    []string          `json:"assumptions"`
 	Outside        []string          `json:"outside"`
+	SkipInit       []string          `json:"skip_init"`
 }
 
 func (c *CheckConfig) budget(name string, thorough bool) int {
